@@ -12,7 +12,7 @@ const SECONDS: &[usize] = &[0, 2, 3, 9, 10, 99, 100, 999, 1000, 9999, 10_000, 99
 pub fn jobs(tier: Tier) -> Vec<(String, u64)> {
     vec![
         ("render:message-align".into(), 16),
-        (format!("render:message-short:{}", tier.pick(6, 7)), 16),
+        (format!("render:message-short:{}", tier.pick(6, 8)), 16),
         ("render:truncate".into(), 8),
         (format!("render:bar:{}", tier.pick(5, 7)), 16),
         ("render:frame".into(), 4),
@@ -217,7 +217,11 @@ pub fn run(ctx: &mut Ctx) -> ShardResult {
                 }
                 check_bar(c, width, &job, &mut res);
             }
-            "frame" => check_frame(case["counts_small"].as_u64().unwrap_or(0) as usize, &msg, case["seconds"].as_u64().unwrap_or(0), width, case["line"].as_str(), &job, &mut res),
+            "frame" => {
+                crate::eng_load::capture_stdout_begin();
+                check_frame(case["counts_small"].as_u64().unwrap_or(0) as usize, &msg, case["seconds"].as_u64().unwrap_or(0), width, case["line"].as_str(), &job, &mut res);
+                crate::eng_load::capture_stdout_end();
+            }
             other => panic!("unknown render replay kind {}", other),
         }
         return res;
@@ -323,6 +327,7 @@ pub fn run(ctx: &mut Ctx) -> ShardResult {
         }
         "frame" => {
             crate::exec::install_hooks();
+            crate::eng_load::capture_stdout_begin();
             let mut idx = 0u64;
             for width in 10..=300u64 {
                 if width % ctx.nshards != ctx.shard {
@@ -344,6 +349,7 @@ pub fn run(ctx: &mut Ctx) -> ShardResult {
                     }
                 }
             }
+            crate::eng_load::capture_stdout_end();
         }
         other => panic!("unknown render job {}", other),
     }
@@ -358,12 +364,48 @@ fn check_frame(counts_small: usize, msg: &str, seconds: u64, width: usize, line:
     crate::exec::set_cols(Some(Some(width)));
     let counts = [counts_small, 1, 0, 1, counts_small * 2, counts_small % 2];
     let tasks = vec![(msg.to_string(), seconds, line.map(|l| l.as_bytes().to_vec()))];
+    crate::eng_load::capture_stdout_reset();
     let r = catch(|| n2::verif::verif_print_progress(counts, &tasks));
     crate::exec::set_cols(None);
     match r {
         Ok(()) => {
-            res.nontrivial += 1;
-            res.outcome("frame-rendered");
+            // The frame as printed: first the bar line, then one line per task
+            // and one per last output line; those must fit the terminal.
+            let mut raw = Vec::new();
+            {
+                use std::io::{Read, Write};
+                let _ = std::io::stdout().flush();
+                if let Ok(mut f) = std::fs::File::open("stdout.cap") {
+                    let _ = f.read_to_end(&mut raw);
+                }
+            }
+            let lines: Vec<&[u8]> = raw.split(|&c| c == b'\n').collect();
+            let mut bad: Option<String> = None;
+            for l in lines.iter().skip(1) {
+                if l.starts_with(b"\x1b") || l.is_empty() {
+                    continue;
+                }
+                if l.len() > width {
+                    bad = Some(format!("a line of {} bytes on a {}-column terminal: {:?}", l.len(), width, String::from_utf8_lossy(l)));
+                }
+                if std::str::from_utf8(l).is_err() {
+                    bad = Some(format!("a line that is not valid UTF-8: {:?}", l));
+                }
+            }
+            if lines.len() < 2 {
+                bad = Some("nothing was printed".to_string());
+            }
+            match bad {
+                None => {
+                    res.nontrivial += 1;
+                    res.outcome("frame-rendered");
+                }
+                Some(b) => res.violation(
+                    "frame-line-wider-than-terminal",
+                    || format!("print_progress at width {} with message {:?} ({} s), last line {:?}: {}", width, msg, seconds, line, b),
+                    || json!({"job": job, "kind": "frame", "counts_small": counts_small, "msg": msg, "seconds": seconds, "width": width, "line": line}),
+                ),
+            }
         }
         Err(p) => res.violation(
             &p.key(),
